@@ -206,7 +206,7 @@ def getType (k : Nat) : Val → Ty
       match kvs with
       | [] => .dict .any .any
       | _ =>
-        if kvs.all (fun kv => kv.1.strKey?.isSome) && kvs.length ≤ k then
+        if kvs.all (fun kv => kv.1.tdKeyOk) && kvs.length ≤ k then
           .td (getFields k kvs) []
         else .dict (shrink k (getKeyTypes k kvs)) (shrink k (getValTypes k kvs))
 def getTypes (k : Nat) : List Val → List Ty
